@@ -98,9 +98,11 @@ C06_DidEscrow(s) == BalOf(s, "m_did") >= SumSeq(s.didBal, LAMBDA d : d.amt)
 
 (* C08 *)
 C08_MintedEqualsCounter(s, gh) == s.supply - gh.supply0 = s.pool.reward - gh.reward0
-\* (projected reward values are floors of the real decimals, so the inequality is sound outside the exact fragment too)
+\* (outside the exact fragment the projected values are floors of the real decimals: flooring a provider's reward DEBT
+\* overstates what he can claim by less than 1/1000 coin, so one milli-coin of slack per provider is allowed there)
 C08_ClaimsWithinMinted(s, gh) ==
     ClaimableMilli(s) + 1000 * gh.claimedNode <= 1000 * (s.pool.reward - gh.reward0) + gh.claimable0
+                                                 + (IF s.inexact = <<>> THEN 0 ELSE Len(s.pledges))
 \* rewards are shared per pledged byte: the divisor of the per-block share is the capacity actually pledged
 C08_ShareBaseIsPledgedCapacity(s) == s.pool.storage = SumSeq(s.pledges, LAMBDA p : p.cap)
 
@@ -217,7 +219,7 @@ SubsidyOf(cfg, s) == IF AgeOf(cfg, s) >= 31 THEN 0 ELSE cfg.blockReward \div (2 
 RewardCap(cfg, s) ==
     IF s.pool.pledged = 0 THEN 0
     ELSE IF s.pool.pledged < cfg.baseline
-         THEN Min2(SubsidyOf(cfg, s), (s.pool.pledged * cfg.apyNum) \div (cfg.apyDen * (cfg.halvingPeriod \div 2)))
+         THEN Min2(SubsidyOf(cfg, s), ((s.pool.pledged * cfg.apyNum) \div cfg.apyDen) \div (cfg.halvingPeriod \div 2))
          ELSE SubsidyOf(cfg, s)
 C08_MintBound(x, cfg) ==
     /\ Minted(x) >= 0
